@@ -12,13 +12,13 @@ import itertools
 
 from urllib3 import HTTPConnectionPool, Retry
 from urllib3.connectionpool import _close_pool_connections
-from urllib3.exceptions import ClosedPoolError, EmptyPoolError, HTTPError
+from urllib3.exceptions import ClosedPoolError, EmptyPoolError, HTTPError, ProtocolError, ReadTimeoutError
 from urllib3.response import HTTPResponse
 
 from mc import sched
 from mc.common import Acc, HarnessError
 from mc.httpparse import response
-from mc.simnet import EOF, Net, Server
+from mc.simnet import EOF, STALL, Net, Server
 
 _watched = False
 
@@ -76,6 +76,11 @@ class C02Server(Server):
             return [ConnectionResetError(errno.ECONNRESET, "reset")]
         if self.script == "conn-close":
             return [response(200, body, headers=[("Connection", "close")]), EOF]
+        if self.script == "body-stalls" and req.target.startswith("/t0-"):
+            # thread 0's body stops half way and the client's read times out: its connection is broken and must be
+            # closed before anybody else can get hold of it
+            full = response(200, body + b"-and-more")
+            return [full[:-5], STALL]
         return [response(200, body)]
 
 
@@ -137,6 +142,9 @@ def execute(cfg, prefix):
                     except (ClosedPoolError, EmptyPoolError) as e:
                         w.active.pop(tid, None)
                         out.append((type(e).__name__,))
+                    except (ReadTimeoutError, ProtocolError) as e:
+                        w.active.pop(tid, None)
+                        out.append(("read-failed", type(e).__name__, cfg["script"] == "body-stalls" and tid == 0 and bool(stream)))
                 return out
             return body
 
@@ -223,6 +231,11 @@ def configs(thorough):
                     if script != "ok" and len(progs) == 3 and not thorough and "close" not in progs:
                         continue
                     out.append(dict(maxsize=maxsize, block=block, programs=progs, script=script, pool_timeout=None))
+    # a streamed body that stalls (read timeout) while another thread wants a connection
+    for maxsize in (1, 2):
+        for block in (False, True):
+            for progs in ((("stream1", "req1"), ("stream1", "req2")) if thorough else (("stream1", "req1"),)):
+                out.append(dict(maxsize=maxsize, block=block, programs=progs, script="body-stalls", pool_timeout=None))
     # finite pool_timeout: the timer may fire while the queue is empty
     for progs in (("req1", "req1"), ("req1", "close"), ("req1", "req1", "close")):
         out.append(dict(maxsize=1, block=True, programs=progs, script="ok", pool_timeout=0.5))
@@ -270,6 +283,9 @@ def judge(cfg, s, acc, schedule):
             elif item[0] == "EmptyPoolError":
                 if cfg.get("pool_timeout") is None:
                     bad("empty-pool-error-without-timeout", item, "response")
+            elif item[0] == "read-failed":
+                if not item[2]:
+                    bad("request-failed-without-fault", item[1], "response")
     for f in s.flags:
         bad(f[0], f[1], "never")
     for p in s.lease_problems:
